@@ -280,6 +280,12 @@ corr_create = FunctionSpec(
 def _refine_log_ref(L):
     L.set('g_start', L._e.num(L.callargs[2]))
     L.set('g_end', L._e.num(L.callargs[3]))
+    L.set('g_ref_rev', L._e.truth(L._st, L.callargs[1]))
+
+
+def _refine_log_query(L):
+    L.set('g_qry_rev', L._e.truth(L._st, L.callargs[1]))
+    L.set('g_qry_gen', L.callargs[0].t)
 
 
 def _refine_log_create(L):
@@ -307,7 +313,9 @@ def _refine_ensures(C, res):
         cl += [('reference_is_vectorised_from_the_window_origin_to_one_query_length_plus_margin_after_the_seed', z3.And(
                     F_.g_start == C.peakPosition - C.secondaryMargin, F_.g_end == C.peakPosition + me.query.length + C.secondaryMargin)),
                ('peaks_are_converted_with_the_origin_and_resolution_the_reference_was_vectorised_with', z3.And(
-                   F_.g_origin == F_.g_start, F_.g_res == gen.resolution))]
+                   F_.g_origin == F_.g_start, F_.g_res == gen.resolution)),
+               ('the_reference_is_read_forwards_and_the_query_on_the_strand_of_the_primary_correlation_with_the_same_generator', z3.And(
+                   z3.Not(F_.g_ref_rev), F_.g_qry_rev == me.reverseStrand, F_.g_qry_gen == gen.ref))]
     return cl
 
 
@@ -315,8 +323,9 @@ refine = FunctionSpec(
     file='src/correlation/optical_map.py', qualname='InitialAlignment.refine',
     params=dict(self=IA0, peakPosition=REAL, sequenceGenerator=GEN, secondaryMargin=REAL, peakHeightThreshold=REAL), returns=CORR,
     requires=_refine_requires, ensures=_refine_ensures,
-    ghost={'g_start': lambda C: z3.RealVal(0), 'g_end': lambda C: z3.RealVal(0), 'g_origin': lambda C: z3.RealVal(0), 'g_res': lambda C: z3.IntVal(0)},
-    ghost_at={'call:getSequence#1': _refine_log_ref, 'call:create#0': _refine_log_create},
+    ghost={'g_start': lambda C: z3.RealVal(0), 'g_end': lambda C: z3.RealVal(0), 'g_origin': lambda C: z3.RealVal(0), 'g_res': lambda C: z3.IntVal(0),
+           'g_ref_rev': lambda C: z3.BoolVal(True), 'g_qry_rev': lambda C: z3.BoolVal(False), 'g_qry_gen': lambda C: z3.Const('rf_none', Ref)},
+    ghost_at={'call:getSequence#0': _refine_log_query, 'call:getSequence#1': _refine_log_ref, 'call:create#0': _refine_log_create},
     inline={'InitialAlignment.__getCorrelation'}, serves=('C06',),
     note="the refinement window: the reference is vectorised from seed - margin to seed + query length + margin, and the secondary peaks are converted back to "
          "base pairs with the SAME origin and resolution (so a peak is the bin-centre coordinate of its bin in the window); maps and strand are passed on. The "
